@@ -225,15 +225,18 @@ def tealer_cfg(ctx, src):
 
 def by_line(summary):
     """re-key a graph summary by the source line of each block's first instruction, so that the comparison does not depend on how
-    blocks are numbered"""
+    blocks are numbered; a block that is named but not part of the graph appears as '?<id>'"""
     first = {i: v["lines"][0] for i, v in summary["blocks"].items()}
+
     def L(i):
         return first.get(i, f"?{i}")
-    blocks = {first[i]: {"lines": v["lines"], "next": [L(x) for x in v["next"]], "prev": sorted(L(x) for x in v["prev"])} for i, v in summary["blocks"].items()}
-    subs = {n: {"entry": L(v["entry"]), "blocks": sorted(L(x) for x in v["blocks"]), "exits": sorted(L(x) for x in v["exits"]),
-                "retsubs": sorted(L(x) for x in v["retsubs"]), "callers": sorted(L(x) for x in v["callers"]),
-                "return_points": sorted(L(x) for x in v["return_points"])} for n, v in summary["subs"].items()}
-    return {"blocks": blocks, "subs": subs, "main": sorted(L(x) for x in summary["main"]), "retained_lines": summary["retained_lines"]}
+
+    def S(xs):
+        return sorted((L(x) for x in xs), key=lambda v: (isinstance(v, str), str(v) if isinstance(v, str) else v))
+    blocks = {first[i]: {"lines": v["lines"], "next": [L(x) for x in v["next"]], "prev": S(v["prev"])} for i, v in summary["blocks"].items()}
+    subs = {n: {"entry": L(v["entry"]), "blocks": S(v["blocks"]), "exits": S(v["exits"]), "retsubs": S(v["retsubs"]), "callers": S(v["callers"]),
+                "return_points": S(v["return_points"])} for n, v in summary["subs"].items()}
+    return {"blocks": blocks, "subs": subs, "main": S(summary["main"]), "retained_lines": summary["retained_lines"]}
 
 
 SHAPES = {
